@@ -758,3 +758,38 @@ func c32Extra(r *Run) error {
 	r.table("C32/find-route-structure", len(bad) == 0, "FindRoute's only map range is the collection of candidates (which carries nothing between iterations but the list), the list is sorted canonically after it, and no clock or random source is consulted", strings.Join(bad, "; "))
 	return nil
 }
+
+// c07Extra: the ledger, plus: every function that assigns Tokenizer.TokenP is under contract for C07 (it keeps the
+// cursor non-negative), except the one place in the compiler that puts back a cursor value it read earlier.
+func c07Extra(r *Run) error {
+	if err := ledgerExtra(r); err != nil {
+		return err
+	}
+	tk := modInternal + "language/tokenizer"
+	f := r.structField(tk, "Tokenizer", "TokenP")
+	if f == nil {
+		r.table("C07/cursor-writers", false, "field Tokenizer.TokenP not found", "")
+		return nil
+	}
+	restores := map[string]bool{modInternal + "language/compiler.assignmentTargetList": true}
+	var detail, bad []string
+	for _, n := range r.Eng.frame.allNodes() {
+		if !n.writes.vars[f] || n.fn == nil {
+			continue
+		}
+		full := n.fn.FullName()
+		c := r.Prog.ContractFor(full, n.fn.Pkg().Path())
+		switch {
+		case c != nil && !c.Trusted && propListed(c.Opts["props"], r.Prop):
+			detail = append(detail, shortFuncName(full)+" (under contract)")
+		case restores[full]:
+			detail = append(detail, shortFuncName(full)+" (puts back a cursor value read from the same tokenizer earlier in the function)")
+		default:
+			bad = append(bad, shortFuncName(full))
+		}
+	}
+	sort.Strings(detail)
+	sort.Strings(bad)
+	r.table("C07/cursor-writers", len(bad) == 0 && len(detail) > 0, "every function that assigns Tokenizer.TokenP keeps it non-negative (contract) or restores a value it read", fmt.Sprintf("writers: %v; not covered: %v", detail, bad))
+	return nil
+}
